@@ -218,6 +218,74 @@ def explorer_loading(chk):
             shutil.rmtree(base, ignore_errors=True)
 
 
+def explorer_repeated_requests(chk):
+    """The explorer's task-graph request (explorer/routes.py get_task_graph), asked SEVERAL times of one long-lived process
+    (a page reload): a project with a cycle or a dangling dependency is rejected every time (HTTP 400), a sound project is
+    answered every time with all its tasks and exactly its root tasks.  The routes module is imported from a scratch copy of
+    the sources (importing it creates the directory of the UI bundle, which must not happen inside the working tree).
+    (Seed C14/k: the "graph validated" flag was set before validation succeeded; from the second request on a defective
+    project was answered 200 with no root tasks.)"""
+    import subprocess
+    from common import PY, SRC
+    import select_util  # pylint: disable=import-outside-toplevel
+
+    base = new_dir("explorer-req")
+    copy = os.path.join(base, "srccopy")
+    shutil.copytree(SRC, os.path.join(copy, "src"), symlinks=True, ignore=shutil.ignore_patterns("__pycache__"))
+    os.makedirs(os.path.join(copy, "explorer", "dist"), exist_ok=True)       # where src/conductor/explorer/static points in a checkout
+    driver = ("import json, pathlib, sys\n"
+              "from fastapi import HTTPException\n"
+              "from conductor.context import Context\n"
+              "import conductor.explorer.routes as routes\n"
+              "routes.set_context(Context(pathlib.Path(sys.argv[1])))\n"
+              "routes.workspace.clear()\n"
+              "out = []\n"
+              "for _ in range(3):\n"
+              "    try:\n"
+              "        g = routes.get_task_graph()\n"
+              "        out.append(['ok', sorted(t.display for t in g.root_tasks), len(g.tasks)])\n"
+              "    except HTTPException as ex:\n"
+              "        out.append(['http', ex.status_code])\n"
+              "print(json.dumps(out))\n")
+    projects = {
+        "sound": ({"COND": 'run_command(name="top", run="true", deps=["//p:mid"])\n', "p/COND": 'run_command(name="mid", run="true", deps=[":leaf"])\nrun_command(name="leaf", run="true")\n'},
+                  [["ok", ["//:top"], 3]] * 3),
+        "cyclic": ({"COND": 'run_command(name="top", run="true", deps=["//p:mid"])\n', "p/COND": 'run_command(name="mid", run="true", deps=[":leaf"])\nrun_command(name="leaf", run="true", deps=[":mid"])\n'},
+                   [["http", 400]] * 3),
+        "dangling": ({"COND": 'run_command(name="top", run="true", deps=["//p:gone"])\n', "p/COND": 'run_command(name="mid", run="true")\n'}, [["http", 400]] * 3),
+    }
+    genv = dict(os.environ, **select_util.GIT_ENV)
+    drv = os.path.join(base, "driver.py")
+    open(drv, "w").write(driver)
+    for name, (files, want) in projects.items():
+        root = os.path.join(base, "repo-" + name)
+        os.makedirs(root)
+        for rel, text in dict(files, **{"cond_config.toml": "", ".gitignore": "cond-out\n"}).items():
+            pth = os.path.join(root, rel)
+            os.makedirs(os.path.dirname(pth), exist_ok=True)
+            open(pth, "w").write(text)
+        for argv in (["init", "-q", "-b", "main"], ["config", "user.email", "v@example.org"], ["config", "user.name", "v"], ["add", "-A"], ["commit", "-q", "-m", "c0"]):
+            subprocess.run(["git"] + argv, cwd=root, check=True, capture_output=True, env=genv)
+        r = subprocess.run([PY, drv, root], cwd=root, env=dict(genv, PYTHONPATH=os.path.join(copy, "src")), capture_output=True, text=True, timeout=120)
+        chk.coverage["evaluations"] += 3
+        chk.count("explorer requests", name, 3)
+        try:
+            got = json.loads(r.stdout.strip().splitlines()[-1])
+        except (ValueError, IndexError):
+            chk.violation("correspondence", "explorer_repeated_requests: the routes module could not be driven: %s" % (r.stdout + r.stderr)[-300:], {"theorem_or_tie": "explorer routes driver"}, found_input=False)
+            continue
+        if name == "sound":
+            got = [[g[0], [x if isinstance(x, str) else str(x) for x in g[1]], g[2]] if g[0] == "ok" else g for g in got]
+        bad = [k for k in range(3) if k >= len(got) or (got[k] != want[k] if name != "sound" else (got[k][0] != "ok" or got[k][2] != 3 or len(got[k][1]) != 1))]
+        if bad:
+            chk.violation("impl-violation", "explorer task-graph request, %s project, request #%d of one process: got %r (all three answers: %r)" % (name, bad[0] + 1, got[bad[0]] if bad[0] < len(got) else None, got),
+                          {"input": {"part": "explorer-requests", "project": name, "files": files}, "impl_observation": got, "oracle_verdict": "expected %r every time" % (want[0],)},
+                          match_key={"explorer": "repeated requests"}, size=3)
+        else:
+            chk.coverage["traces_validated_against_impl"] += 3
+    shutil.rmtree(base, ignore_errors=True)
+
+
 def cli_part(chk, tier):
     """through the command line (cli/run.py), where the closure is loaded before anything is planned: a project that
     ran successfully is edited so that the graph BELOW an already recorded (cached) experiment becomes defective;
@@ -318,6 +386,7 @@ def both_parts(chk, tier):
     validate_part(chk, tier)
     cli_part(chk, tier)
     explorer_loading(chk)
+    explorer_repeated_requests(chk)
 
 
 def run(tier, seed, replay=None):
